@@ -6,8 +6,8 @@ import NomtModel.Store.BranchUpdExamples
 `DbOK kf db` is what the decoders / the image monitor require of the bottom level of branch nodes (as far as the branch
 stage is concerned): every node non-empty with ascending keys below 2^256, `1 ≤ prefix_compressed ≤ n`, the compressed
 keys share the first `prefix_len` bits, the stored separator lengths are the ones `BranchNodeBuilder::push` writes, the
-index separators ascend and bound the keys of their nodes.  With the repair of finding F22 (`kf.canon`,
-`notes/Q12_F22_suggested_fix.diff`) the level the stage produces satisfies it again — for every level, every change list
+index separators ascend and bound the keys of their nodes.  The level the stage produces satisfies it again (false before
+the repair of finding F22, commit `d4be933`: `Nomt.C01.T1_F22_overfull_counterexample`) — for every level, every change list
 and every page-number assignment of the allocator — hence so does every level reachable by any sequence of stages.
 -/
 namespace Nomt.C16
@@ -16,33 +16,33 @@ open Nomt.LeafUpd (applyAll)
 
 /-- **T16.branch_level_closed** — one stage: the produced level is well formed and holds the old entries with the
 changes applied. -/
-theorem T16_branch_level_closed (kf : KF) (hkf : KFOK kf) (hc : kf.canon = true) (db : List DbNode)
-    (cs : List (Nat × Option Nat)) (lo : Nat) (hdb : DbOK kf db) (hcs : ChOK lo cs)
+theorem T16_branch_level_closed (db : List DbNode)
+    (cs : List (Nat × Option Nat)) (lo : Nat) (hdb : DbOK kfReal db) (hcs : ChOK lo cs)
     (hfirst : ∀ l, db.head? = some l → l.sep ≤ lo) (f : Produced → Nat) :
-    ∃ out rel, runWorker kf db cs = some (out, rel) ∧ DbOK kf (out.map (toDb f)) ∧
+    ∃ out rel, runWorker kfReal db cs = some (out, rel) ∧ DbOK kfReal (out.map (toDb f)) ∧
       flat (out.map (toDb f)) = applyAll (flat db) (chs cs) :=
-  level_closed hkf hc db cs lo hdb hcs hfirst f
+  level_closed kfReal_ok kfReal_canon db cs lo hdb hcs hfirst f
 
 /-- **T16.branch_level_invariant** — any number of stages: the level stays well formed and holds the original entries
 with all change lists applied in order. -/
-theorem T16_branch_level_invariant (kf : KF) (hkf : KFOK kf) (hc : kf.canon = true) (f : Produced → Nat)
-    (db db' : List DbNode) (css : List (List (Nat × Option Nat))) (hdb : DbOK kf db) (h : Rounds kf f db css db') :
-    DbOK kf db' ∧ flat db' = css.foldl (fun l cs => applyAll l (chs cs)) (flat db) := by
+theorem T16_branch_level_invariant (f : Produced → Nat)
+    (db db' : List DbNode) (css : List (List (Nat × Option Nat))) (hdb : DbOK kfReal db) (h : Rounds kfReal f db css db') :
+    DbOK kfReal db' ∧ flat db' = css.foldl (fun l cs => applyAll l (chs cs)) (flat db) := by
   induction h with
   | nil db => exact ⟨hdb, rfl⟩
   | cons db cs css lo out rel db' h1 h2 h3 _ ih =>
-    obtain ⟨out', rel', e, g1, g2⟩ := level_closed hkf hc db cs lo hdb h1 h2 f
+    obtain ⟨out', rel', e, g1, g2⟩ := level_closed kfReal_ok kfReal_canon db cs lo hdb h1 h2 f
     rw [h3] at e
     cases e
     obtain ⟨i1, i2⟩ := ih g1
     exact ⟨i1, by rw [i2, g2]; rfl⟩
 
-/-- non-vacuity: the hypotheses are met by the four-node level of the examples with the repaired mirror, and a round on
+/-- non-vacuity: the hypotheses are met by the four-node level of the examples, and a round on
 it exists -/
-example : KFOK { kfReal with canon := true } ∧ DbOK { kfReal with canon := true } exDb ∧
-    ∃ db', Rounds { kfReal with canon := true } (fun _ => 99) exDb [[(exKey 0 5, none), (exKey 3 1, some 6)]] db' := by
-  refine ⟨⟨kfReal_ok.pl_le, kfReal_ok.pl_top, kfReal_ok.sl_le, kfReal_ok.sl_gt, rfl⟩, by decide +kernel, ?_⟩
-  have h : (runWorker { kfReal with canon := true } exDb [(exKey 0 5, none), (exKey 3 1, some 6)]).isSome = true := by
+example : DbOK kfReal exDb ∧
+    ∃ db', Rounds kfReal (fun _ => 99) exDb [[(exKey 0 5, none), (exKey 3 1, some 6)]] db' := by
+  refine ⟨by decide +kernel, ?_⟩
+  have h : (runWorker kfReal exDb [(exKey 0 5, none), (exKey 3 1, some 6)]).isSome = true := by
     decide +kernel
   obtain ⟨⟨out, rel⟩, e⟩ := Option.isSome_iff_exists.1 h
   exact ⟨_, .cons _ _ _ 0 out rel _ (by decide +kernel) (by decide +kernel) e (.nil _)⟩
